@@ -1104,6 +1104,32 @@ def classify_exprs(ctx, cirq, entries, exprs):
     return hit
 
 
+def all_locals(specs):
+    out = []
+    for s in specs:
+        w = s['wrap']
+        if isinstance(w, tuple):
+            if w[3] is not None:
+                out.append((w[3], [e for x in w[1] for e in x['exprs']]))
+            out += all_locals(w[1])
+    return out
+
+
+def explain_exception(ctx, cirq, stream, specs, entries, ex, rep):
+    """An unexpected exception while observing a case: attribute it to value_of on one of the parameter expressions if that
+    already fails there (also the single-step resolution a CircuitOperation applies to its own param_resolver), else report it."""
+    import sympy
+    ctx.mark_broken(f'differential:{stream}', f'raised {type(ex).__name__}: {ex}'[:300])
+    exprs = [e for s in specs for e in s['exprs']]
+    hit = classify_exprs(ctx, cirq, entries, exprs)
+    for local, inner in all_locals(specs):
+        for e in inner:
+            if isinstance(e, sympy.Basic) and not e.is_Number:
+                hit = spec_value_of(ctx, cirq, [local], e, False, None, stream) or hit
+    if not hit:
+        ctx.violation(f'{stream}:raises:{type(ex).__name__}', f'{stream}: {type(ex).__name__}: {ex}'[:600], rep)
+
+
 def gate_stream(ctx, cirq, n):
     """resolve_parameters then cirq.unitary  vs  substitute numbers (sympy) then cirq.unitary, gate by gate; plus
     parameter_names / is_parameterized of the symbolic gate and two-stage resolution."""
@@ -1303,7 +1329,10 @@ def circuit_stream(ctx, cirq, n):
         nontriv = len(case['specs']) >= 2 and any(isinstance(e, sympy.Basic) and e.args for e in exprs)
         ctx.count('circuit_unitary', [kinds, [sympy_srepr(e) if isinstance(e, sympy.Basic) else e for e in exprs], str(case['entries'])], nontriv,
                   sample=dict(circuit=safe_str(case['sym']), resolver=str(dict(case['entries']))))
-        check_circuit_resolution(ctx, cirq, case, exprs)
+        try:
+            check_circuit_resolution(ctx, cirq, case, exprs)
+        except Exception as ex:
+            explain_exception(ctx, cirq, 'circuit', case['specs'], case['entries'], ex, circuit_replay_record(case))
 
 
 def circuit_replay_record(case):
@@ -1411,38 +1440,43 @@ def simulate_stream(ctx, cirq, n):
             cs = cirq.Circuit(prefix, build_ops(cirq, specs, 'sym', q))
         except Exception:
             continue
+        try:
+            simulate_case(ctx, cirq, sim, rng, cs, specs, prefix, q, syms)
+        except Exception as ex:
+            explain_exception(ctx, cirq, 'simulate_sweep', specs, direct, ex, dict(kind='simulate_sweep', circuit=repr(cs)))
+
+
+def simulate_case(ctx, cirq, sim, rng, cs, specs, prefix, q, syms):
+    if True:
         used = sorted(cirq.parameter_names(cs))
         t = gen_numeric_sweep(rng, syms)
         try:
             sweep = build_sweep(cirq, t)
         except ValueError:
-            continue
+            return
         if len(sweep) == 0 or len(sweep) > 8:
-            continue
+            return
         rep = dict(kind='simulate_sweep', circuit=repr(cs), tree=t)
         try:
             results = sim.simulate_sweep(cs, sweep, qubit_order=q)
         except Exception as ex:
-            ctx.mark_broken('differential:simulate_sweep', f'raised {type(ex).__name__}: {ex}'[:300])
-            exprs = [e for s in specs for e in s['exprs']]
-            if not any(classify_exprs(ctx, cirq, dict_items(r), exprs) for r in sweep):
-                blame = circuit_blame(ctx, cirq, specs, q, sweep[0])
-                ctx.violation(f'simulate_sweep:{blame}', f'simulate_sweep of\n{safe_str(cs)}\nover {sweep!r} raised {type(ex).__name__}: {ex}'[:600], rep)
-            continue
+            # is plain resolution with the first assignment already wrong?  then it is the circuit-resolution finding
+            blame = circuit_blame(ctx, cirq, specs, q, sweep[0])
+            if blame != 'circuit':
+                ctx.mark_broken('differential:simulate_sweep', f'raised {type(ex).__name__}: {ex}'[:300])
+                ctx.violation(f'resolve:circuit:{blame}', f'simulate_sweep of\n{safe_str(cs)}\nover {sweep!r} raised {type(ex).__name__}: {ex}'[:600], rep)
+                return
+            raise
         ctx.count('simulate_sweep', [repr(cs), sweep_term(t)], len(sweep) >= 2 and bool(used), sample=dict(circuit=safe_str(cs), sweep=repr(sweep), points=len(sweep)))
         if len(results) != len(sweep):
             ctx.violation('simulate_sweep:length', f'simulate_sweep returned {len(results)} results for a sweep of length {len(sweep)}', rep)
-            continue
+            return
         for j, (r, pr) in enumerate(zip(results, sweep)):
             ents = dict_items(pr)
             # reference: numbers substituted by sympy into every parameter, then simulated
-            try:
-                twin = twin_circuit(cirq, prefix, specs, q, ents)
-                want = sim.simulate(twin, qubit_order=q).final_state_vector
-                single = sim.simulate(cs, pr, qubit_order=q).final_state_vector
-            except Exception as ex:
-                ctx.mark_broken('differential:simulate', f'per-resolver simulate raised {type(ex).__name__}')
-                continue
+            twin = twin_circuit(cirq, prefix, specs, q, ents)
+            want = sim.simulate(twin, qubit_order=q).final_state_vector
+            single = sim.simulate(cs, pr, qubit_order=q).final_state_vector
             if r.params != pr or not mats_close(r.final_state_vector, want, 1e-6) or not mats_close(single, want, 1e-6):
                 ctx.mark_broken('differential:simulate_sweep', f'point {j}')
                 ctx.violation('simulate_sweep:point', f'simulate_sweep of\n{safe_str(cs)}\nover {sweep!r}: result {j} (params {r.params}) differs from simulating the '
@@ -1567,7 +1601,11 @@ def flatten_stream(ctx, cirq, n):
         if bad:
             ctx.mark_broken('differential:flatten', bad)
             # is plain resolution of this circuit already wrong?  then it is not a flattening problem
-            if check_circuit_resolution(ctx, cirq, case, exprs) is None:
+            try:
+                if check_circuit_resolution(ctx, cirq, case, exprs) is None:
+                    continue
+            except Exception as ex:
+                explain_exception(ctx, cirq, 'flatten', case['specs'], case['entries'], ex, rep)
                 continue
             blame = 'sub' if any(k.startswith('sub') for k in kinds) and flatten_ok_without_subs(cirq, case) else 'circuit'
             ctx.violation(f'flatten:{blame}', f'cirq.flatten of\n{safe_str(cs)}\n{bad}', rep)
